@@ -56,6 +56,7 @@ Record case := {
   c_cfg : list mcfg;
   c_ops : list op;
   c_obs : list obs_step;            (* one per operation: reply (or error class) and the updates the connection received *)
+  c_rejected : bool;                (* the implementation refused to build the node (configuration error) *)
 }.
 
 Fixpoint check_steps (E : pyenv) (s : state) (ops : list op) (obs : list obs_step) : bool :=
@@ -70,8 +71,8 @@ Fixpoint check_steps (E : pyenv) (s : state) (ops : list op) (obs : list obs_ste
 Definition check_case (c : case) : bool :=
   forallb (fun m => forallb kind_ok (mc_accs m)) (c_cfg c) &&
   match build (c_cfg c) with
-  | Ok s0 => check_steps (c_env c) s0 (c_ops c) (c_obs c)
-  | Err _ => false                  (* the harness only offers configurations the implementation accepted *)
+  | Ok s0 => negb (c_rejected c) && check_steps (c_env c) s0 (c_ops c) (c_obs c)
+  | Err _ => c_rejected c           (* both refuse the configuration *)
   end.
 
 (* for the replay files: what the model answers *)
